@@ -254,6 +254,39 @@ def name_pair(ctx):
         ctx.ob('NAMEPAIR', kind, bool(prop) and not missing, short_loc(reg.get('loc')),
                'decoder proposes %s for a %s branch; the per-name lookup registers %s%s' % (
                    sorted(prop), kind, sorted(have), ('; NOT registered: %s' % sorted(missing)) if missing else ''))
+    # a `null` branch reaches an enum-shaped target as the UNIT variant named "Null" (no payload to visit): the encoder
+    # has to take that same unit variant back to the null branch - it selects union branches for unit variants by TYPE
+    # (string and enum branches come first), so the name has to be looked at: in serialize_unit_variant's union arm the
+    # lookup key Null is used under a comparison of the variant name with the name the decoder proposes
+    suv = None
+    for b in f.body_list:
+        if b.name == 'serialize_unit_variant' and b.j['kind'] != 'closure' and 'DatumSerializer' in (b.j.get('self_ty') or ''):
+            suv = b
+    oku, detu = False, 'DatumSerializer::serialize_unit_variant not found'
+    if suv is not None:
+        ctx.touched(suv)
+        prop = sorted(names.get('Null', set()))
+        ur = [r for r in enum_regions(suv, SCHEMA_NODE) if 'Union' in r.variants]
+        detu = 'no union arm'
+        if ur:
+            keys = set()
+            cmp_names = set()
+            for bb in sorted(ur[0].blocks):
+                t = suv.term(bb)
+                if suv.is_cleanup(bb):
+                    continue
+                for s_ in suv.stmts(bb):
+                    if 'assign' in s_ and s_['rv']['k'] == 'agg' and s_['rv'].get('adt') == KEY_ADT:
+                        keys.add(s_['rv'].get('variant'))
+                if t['k'] == 'call':
+                    for a in t.get('args', []):
+                        keys |= {x[2] for x in origin(suv, a).atoms if x[0] == 'agg' and x[1] == KEY_ADT}
+                    if (t.get('callee') or '').endswith(('PartialEq::eq', 'PartialEq::ne')):
+                        for a in t['args']:
+                            cmp_names |= {x for x in origin(suv, a).consts() if isinstance(x, str)}
+            oku = 'Null' in keys and bool(prop) and set(prop) <= cmp_names
+            detu = 'decoder presents the null branch as unit variant %s; union arm of serialize_unit_variant compares the variant name with %s and can select lookup keys %s' % (prop, sorted(cmp_names) or 'nothing', sorted(k for k in keys if k))
+    ctx.ob('NAMEPAIR', 'Null/unit-variant-selects-null-branch', oku, short_loc(suv.span) if suv else None, detu)
     # named kinds register both the short and the full name
     rn = None
     for cb in f.closures_of(nb):
@@ -300,6 +333,10 @@ def cap_reg(ctx, sm):
             users.setdefault(key, []).append((name, active))
         for kind in sorted(active):
             for key in sorted(keys):
+                # a function that chooses among several keys uses the key that names a kind (Null, Boolean ...) for that
+                # kind of branch only
+                if len(keys) > 1 and key in KINDS and kind != key:
+                    continue
                 n += 1
                 ok = key in regs.get(kind, {}).get('keys', {})
                 ctx.ob('CAPREG', '%s/%s/%s' % (name, kind, key), ok, short_loc(regs.get(kind, {}).get('loc')),
